@@ -446,7 +446,11 @@ def exec_block(p, drv):
             if not bool(((vg - vm).abs() <= tolv).all()):
                 res['disagreements'].append({'detail': f'regenerated forward closure (Gen.FwdOps) differs from the closed-form model by '
                                                        f'{float((vg - vm).abs().max()):.3e}, kernel {k["kind"]} q={k["q"]} mode {p["mode"]}'})
-            if not bool(((vg - vi).abs() <= 1e-6 * (c.abs().sum(dim=1, keepdim=True) + 1e-300)).all()):
+            # ... against the real kernel matrix only in general position (a coinciding pair computed through the expansion-mode
+            # `cdist` carries a sqrt(eps)-size distance, i.e. a kernel value off by up to ~1e-3 for small exponents), with the
+            # rounding of the real kernel values in the tolerance
+            tol_i = 1e-6 * (c.abs().sum(dim=1, keepdim=True) + 1e-300) + 8.0 * (c.abs() @ value_rounding(k, x, z, T))
+            if p['mode'] == 'general' and not bool(((vg - vi).abs() <= tol_i).all()):
                 res['disagreements'].append({'detail': f'regenerated forward closure (Gen.FwdOps) differs from coefs @ get_kernel_matrix by '
                                                        f'{float((vg - vi).abs().max()):.3e}, kernel {k["kind"]} q={k["q"]} mode {p["mode"]}'})
     nz_grad = bool((gi.abs() > 0).any()) if finite else False
